@@ -43,6 +43,7 @@ CONSTANTS
   MaxResign = {maxresign}
   ResignMods = {mods}
   NLens = {nlens}
+  Renders = {renders}
   Lens = {lens}
   TotalFaults = {total}
   Regions <- AllRegions
@@ -76,7 +77,7 @@ def tset(xs):
 
 def gen(ctx, name, **kw):
     d = dict(algs="<- AllAlgs", fudges="{0, 2}", skews="GSkews", errors="{0, 16}", kinds=tset(["query", "response", "stream"]),
-             maxenv=3, maxfaults=1, lens="{2, 3}", total=1, maxresign=0, mods="{}", nlens="{1}")
+             maxenv=3, maxfaults=1, lens="{2, 3}", total=1, maxresign=0, mods="{}", nlens="{1}", renders='{"plain"}')
     d.update(kw)
     return ctx.generate("Gen_Tsig", ctx.cfg(name, GEN_CFG.format(**d)), heap="2g")
 
@@ -144,6 +145,12 @@ def run(ctx):
             scripts += gen(ctx, "g2.cfg", algs='= {"hmac-sha256"}', fudges="{300}", skews="GSkewsBig", errors="{0}",
                            kinds=tset(["query", "stream"]), lens="{2}")
             # the same Message object rendered again (Resign): genuine for every algorithm; with one fault for two
+            # rendering options of Message.to_wire: OPT before the TSIG, padding, truncation to max_size (TC set);
+            # genuine for every algorithm (with and without a re-rendering), one fault for one algorithm
+            scripts += gen(ctx, "gt1.cfg", fudges="{2}", errors="{0}", total=0, lens="{2}", maxresign=1, mods='{"head"}', nlens="{1, 2}",
+                           renders='{"edns", "pad", "trunc"}')
+            scripts += gen(ctx, "gt2.cfg", algs='= {"hmac-sha512-256"}', fudges="{2}", errors="{0}", kinds=tset(["response"]),
+                           renders='{"trunc", "pad"}')
             scripts += gen(ctx, "gr1.cfg", fudges="{2}", errors="{0}", total=0, lens="{2}", maxresign=1, mods=ALL_MODS, nlens="{2}")
             scripts += gen(ctx, "gr1c.cfg", algs='= {"hmac-sha256"}', fudges="{2}", errors="{0}", total=0, kinds=tset(["query", "response"]),
                            maxresign=2, mods=ALL_MODS, nlens="{3}")
@@ -155,6 +162,10 @@ def run(ctx):
                            kinds=tset(["query", "response", "stream"]), lens="{2}")
             scripts += gen(ctx, "g3.cfg", algs='= {"hmac-sha1", "hmac-sha384-192"}', fudges="{2}", errors="{0}", maxfaults=2, total=2,
                            kinds=tset(["response", "stream"]), lens="{3}")
+            scripts += gen(ctx, "gt1.cfg", fudges="{2}", errors="{0}", total=0, lens="{2, 3}", maxresign=1, mods='{"head"}', nlens="{1, 2}",
+                           renders='{"edns", "pad", "trunc"}')
+            scripts += gen(ctx, "gt2.cfg", algs='= {"hmac-sha512-256", "hmac-sha1"}', fudges="{2}", errors="{0}", lens="{2}",
+                           renders='{"edns", "pad", "trunc"}')
             scripts += gen(ctx, "gr1.cfg", fudges="{0, 2}", errors="{0}", total=0, lens="{2, 3}", maxresign=2, mods=ALL_MODS, nlens="{2, 3}")
             scripts += gen(ctx, "gr2.cfg", fudges="{2}", errors="{0, 16}", lens="{2}", maxresign=1, mods=ALL_MODS, nlens="{2}")
         jobs = []
@@ -169,18 +180,24 @@ def run(ctx):
             seen_scripts.add(key)
             genuine = not faults_of(s)
             resign = any(e["op"] == "resign" for e in s)
-            n = ((1 if quick else 4) if resign else per_genuine) if genuine else per_faulty
+            n = ((1 if quick else 4) if (resign or s[0].get("render", "plain") != "plain") else per_genuine) if genuine else per_faulty
             # bit flips on every genuine script; on re-rendering scripts, in quick, only for hmac-sha256 with <= 2 renderings (declared cut)
             flip = genuine and (not resign or not quick or (s[0]["alg"] == "hmac-sha256" and s[0]["len"] <= 2))
+            render = s[0].get("render", "plain")
+            if render != "plain":
+                # quick: bit flips on edns / pad renderings for hmac-sha256 only, none on the 500-octet truncated ones;
+                # thorough: edns / pad for all, truncated for hmac-sha256 (declared cuts)
+                flip = flip and ((render != "trunc" and (not quick or s[0]["alg"] == "hmac-sha256"))
+                                 or (render == "trunc" and not quick and s[0]["alg"] == "hmac-sha256"))
             for j in range(n):
                 var = ALL_VARIANTS[(i * 37 + j * 53 + ctx.seed * 11) % nv]
-                if resign:  # re-rendering exists only for Message objects
+                if resign or render != "plain":  # re-rendering / rendering options exist only for Message objects
                     var = dict(var, route="message")
                 jobs.append((s, var, "s%d.v%d" % (i, j), flip))
         # the low-level Renderer API given a dns.tsig.Key and no `algorithm` argument: genuine exchanges only
         k = 0
         for i, s in enumerate(scripts):
-            if not faults_of(s) and not any(e["op"] == "resign" for e in s) and s[0]["fudge"] == 2 and s[0]["error"] == 0 and (quick is False or s[0]["kind"] != "stream" or s[0]["len"] == 2):
+            if not faults_of(s) and not any(e["op"] == "resign" for e in s) and s[0].get("render", "plain") == "plain" and s[0]["fudge"] == 2 and s[0]["error"] == 0 and (quick is False or s[0]["kind"] != "stream" or s[0]["len"] == 2):
                 var = dict(ALL_VARIANTS[(k * 41 + ctx.seed * 7) % nv], route="renderer_noalg")
                 jobs.append((s, var, "s%d.noalg" % i, False))
                 k += 1
